@@ -161,6 +161,15 @@ func run(t *testing.T, sc *Scenario, wd *vc.Watchdog) (res runResult) {
 				in, want := simkit.Data(uid, dataN)
 				res.Wants[uid] = want
 				deliver(&in)
+			case "data-burst":
+				// a flood of early data frames (st.D carries the count)
+				for k := 0; k < int(st.D); k++ {
+					dataN++
+					uid := fmt.Sprintf("d-%d", dataN)
+					in, want := simkit.Data(uid, dataN)
+					res.Wants[uid] = want
+					deliver(&in)
+				}
 			case "sleep":
 				l.Add("E", "sleep", int(st.D/time.Millisecond), false, st.D.String())
 				time.Sleep(st.D)
@@ -250,8 +259,10 @@ func randomStep(r *vc.Rand, alpha []simkit.Input) Step {
 	case x < 75:
 		in := simkit.Mutate(r, vc.Pick(r, alpha))
 		st.Op, st.In = "msg", &in
-	case x < 83:
+	case x < 82:
 		st.Op = "data"
+	case x < 83:
+		st.Op, st.D = "data-burst", time.Duration(vc.Pick(r, []int{3, 10, 70, 130}))
 	case x < 89:
 		st.Op, st.D = "sleep", vc.Pick(r, sleeps)
 	case x < 92:
@@ -285,6 +296,9 @@ func opsAlphabet() []Step {
 	}
 	for _, d := range sleeps {
 		out = append(out, Step{Op: "sleep", D: d, Settle: true})
+	}
+	for _, n := range []int{10, 70, 200} {
+		out = append(out, Step{Op: "data-burst", D: time.Duration(n), Settle: true})
 	}
 	return out
 }
